@@ -82,7 +82,7 @@ FIELD_OWNERS = [
     (r"acc\.(id|ip4|ip6|tcp4|tcp6|udp4|udp6|udp4s|udp6s|tcp4s|tcp6s|udpr|tcpr|client|get)$", ["C14"]),
     (r"acc\.(text|disp)$", ["C12"]),
     (r"acc\.encs$", ["C04"]),
-    (r"acc\.(pk|pkkey|nidpk)$", ["C10"]),
+    (r"acc\.(pk|pkkey|nidpk|nidconv)$", ["C10"]),
     (r"acc\.(dbg|conv)$", ["C03"]),
     (r"acc\.xdec$", ["C11"]),
     (r"cmp\.", ["C15"]),
